@@ -14,6 +14,7 @@ void h_os_free_ex(void) {
   _mi_os_free_ex(addr, size, sc, memid);
   VC_REACH();
 }
+void h_good_alloc_size(void) { mi_os_mem_config.page_size = g_os_page_size; size_t r = _mi_os_good_alloc_size(vc_nondet_size("size")); VC_REACH(); }
 void h_os_alloc(void) {
   size_t size = vc_nondet_size("size"); mi_memid_t* memid;
   void* p = _mi_os_alloc(size, memid);
